@@ -102,6 +102,11 @@ func (p *Processor) handleCleanup(ctx context.Context) {
 			} else {
 				gs = p.gs
 			}
+			if gs == nil {
+				// No guardian set is known yet (e.g. a VAA injected before the first set was fetched):
+				// there is nothing to account the signatures against.
+				break
+			}
 
 			hasSigs := len(s.signatures)
 			wantSigs := CalculateQuorum(len(gs.Keys))
